@@ -10,7 +10,7 @@ RULE = ('exhaustive core: every assignment of an 18-letter connector alphabet ({
         'repeated flag) to 1x1, 1x2, 2x1 (all) and 2x2 (all in thorough, every 16th in quick) shapes with all existence '
         'patterns; random: G-MAT settings up to 3x3 with exclusions, explicit parallel limits and override patterns; '
         'oracle = R-CONN brute force: enumerated set == reference set without duplicates, validate_matrix == membership '
-        'over the limit box (+1), counts == sizes, iter_matrices == same multiset; non-trivial = some pattern has >= 2 '
+        'over the limit box (+1), counts == sizes, iter_matrices == same multiset, and a cold on-disk cache first touched by a per-pattern iteration gives the same full enumeration afterwards; non-trivial = some pattern has >= 2 '
         'valid matrices and some box matrix is rejected; distinct by sha1(settings)')
 BUDGET = {'quick': 400, 'thorough': 8000}
 EXHAUSTIVE = {'quick': False, 'thorough': False}  # the core is exhaustive, the random part is not
@@ -116,6 +116,36 @@ def check_case(case):
                          sig=f'generator_exception:{exc_sig(e)}', data={'msg': str(e)[:300]}))
         if len(res.violations) > 40:
             break
+    # cache history: a cold cache first touched by a per-pattern iteration must not poison later full enumerations
+    if not res.violations and len(pats) >= 2 and not res.excluded:
+        try:
+            k = (len(ms['src'])*7+len(ms['tgt'])*3+len(pats)) % len(pats)
+            s2, ex2, _ = matspec.to_settings(ms)
+            gen2 = AggregateAssignmentMatrixGenerator(s2)
+            gen2.reset_agg_matrix_cache()
+            part = [m for m, _ in gen2.iter_matrices(existence=ex2[k])]
+            s3, ex3, _ = matspec.to_settings(ms)
+            gen3 = AggregateAssignmentMatrixGenerator(s3)
+            agg3 = gen3.get_agg_matrix(cache=True)
+            n3 = gen3.count_all_matrices(max_by_existence=False)
+            for pat, ex, n_ref in zip(pats, ex3, sizes):
+                got3 = agg3.get(ex)
+                if got3 is None or got3.shape[0] != n_ref:
+                    res.add(viol('cache_poisoned_by_partial_enumeration',
+                                 f'after iter_matrices(existence=pattern {k}) on a cold cache, get_agg_matrix(cache=True) '
+                                 f'lists {None if got3 is None else got3.shape[0]} matrices for pattern {pat} '
+                                 f'(reference {n_ref})', data={'pattern': pat}))
+                    break
+            if not res.violations and n3 != sum(sizes):
+                res.add(viol('cache_poisoned_by_partial_enumeration', f'count after partial enumeration {n3} != '
+                                                                      f'{sum(sizes)}', data={}))
+            gen3.reset_agg_matrix_cache()
+            res.classes.append('partial_first_history')
+        except Exception as e:  # noqa
+            if exc_sig(e).endswith('@harness'):
+                raise
+            res.add(viol('generator_exception', f'partial-first history {type(e).__name__}: {e}',
+                         sig=f'generator_exception:{exc_sig(e)}', data={'msg': str(e)[:300]}))
     if not res.violations:
         if n_sum != sum(sizes):
             res.add(viol('count_sum_differs', f'count={n_sum} reference={sum(sizes)} sizes={sizes}',
